@@ -65,7 +65,7 @@ MCCall(p) ==
        THEN \* the task clears its notification and is about to poll
             /\ notified' = [notified EXCEPT ![p] = FALSE]
             /\ tpc' = [tpc EXCEPT ![p] = "ready"] /\ tgot' = [tgot EXCEPT ![p] = 0]
-            /\ UNCHANGED <<ring, sm, waker, wlock, keep, pc, reg, gh, opi>>
+            /\ UNCHANGED <<ring, sm, waker, wlock, keep, pc, reg, gh, og, opi>>
        ELSE /\ CASE o.op = "send"   -> CallSend(p, o.v)
                  [] o.op = "poll"   -> CallPoll(p, o.s)
                  [] o.op = "cancel" -> CallCancel(p)
@@ -81,7 +81,7 @@ MCPoll(p) == /\ tpc[p] = "ready" /\ pc[p] = "idle"
 MCUnpark(p) == /\ tpc[p] = "parked" /\ notified[p]
                /\ notified' = [notified EXCEPT ![p] = FALSE]
                /\ tpc' = [tpc EXCEPT ![p] = "ready"]
-               /\ UNCHANGED <<ring, sm, waker, wlock, keep, pc, reg, gh, opi, tgot>>
+               /\ UNCHANGED <<ring, sm, waker, wlock, keep, pc, reg, gh, og, opi, tgot>>
 
 MCOp(p) == ChanStep(p) /\ UNCHANGED <<opi, tpc, tgot>>
 
@@ -94,7 +94,7 @@ MCRet(p) ==
                 res == reg[p].res IN
             /\ pc' = [pc EXCEPT ![p] = "idle"]
             /\ got' = IF res = "item" THEN [got EXCEPT ![reg[p].sid] = Append(@, reg[p].rv)] ELSE got
-            /\ UNCHANGED <<ring, sm, waker, wlock, keep, reg, old, owed, done, life>>
+            /\ UNCHANGED <<ring, sm, waker, wlock, keep, reg, old, owed, done, life, og>>
             /\ IF res = "item"
                THEN IF tgot[p] + 1 < o.max
                     THEN /\ tgot' = [tgot EXCEPT ![p] = @ + 1] /\ tpc' = [tpc EXCEPT ![p] = "ready"]
